@@ -146,6 +146,26 @@ def shaving_consistency_algorithm(
     :return: a status (consistency, inconsistency or entailment) as an integer
     """
     statistics[STATS_IDX_ALG_BC_WITH_SHAVING_NB] += 1
+    if int(stacks_top[0]) + 1 >= len(shr_domains_stack):  # shaving a bound pushes a choice point: there is no room left
+        return bound_consistency_algorithm(
+            statistics,
+            algorithms,
+            var_bounds,
+            param_bounds,
+            dom_indices_arr,
+            dom_offsets_arr,
+            props_dom_indices,
+            props_dom_offsets,
+            props_parameters,
+            triggers,
+            shr_domains_stack,
+            not_entailed_propagators_stack,
+            dom_update_stack,
+            stacks_top,
+            triggered_propagators,
+            compute_domains_addrs,
+            decision_domains,
+        )
     shr_domains_nb = len(shr_domains_stack[0])
     bound = MIN
     has_shaved = True
